@@ -150,18 +150,18 @@ func specRecHdrEq(a, b CdrHeader) bool {
 }
 
 // Round trip (C14): writing a well-formed structure and reading it back yields an identical structure.
-//@ lemma verifLemmaFileRoundTrip [C14]
-//@   tier thorough
-//@   bounded at most 2 records (record loop unrolled) after a header without routeing filter and private extension; all header and record field values, all release-identifier combinations and all payload lengths unbounded
-//@   requires specHdrOK(f.Hdr) && int(f.Hdr.NumberOfCdrsInFile) == len(f.CdrList) && len(f.CdrList) <= 2
-//@   requires len(f.Hdr.CDRRouteingFilter) == 0 && len(f.Hdr.PrivateExtension) == 0
-//@   requires forall j int in 0..2 :: j < len(f.CdrList) ==> specRecOK(f.CdrList[j])
-//@   ensures specHdrEq(g.Hdr, f.Hdr)
-//@   ensures forall k int :: 0 <= k && k < len(f.Hdr.CDRRouteingFilter) ==> g.Hdr.CDRRouteingFilter[k] == f.Hdr.CDRRouteingFilter[k]
-//@   ensures forall k int :: 0 <= k && k < len(f.Hdr.PrivateExtension) ==> g.Hdr.PrivateExtension[k] == f.Hdr.PrivateExtension[k]
-//@   ensures len(g.CdrList) == len(f.CdrList)
-//@   ensures forall j int in 0..2 :: j < len(f.CdrList) ==> specRecHdrEq(g.CdrList[j].Hdr, f.CdrList[j].Hdr) && len(g.CdrList[j].CdrByte) == len(f.CdrList[j].CdrByte)
-//@   ensures forall j int in 0..2 :: j < len(f.CdrList) ==> forall k int :: 0 <= k && k < len(f.CdrList[j].CdrByte) ==> g.CdrList[j].CdrByte[k] == f.CdrList[j].CdrByte[k]
+// @ lemma verifLemmaFileRoundTrip [C14]
+// @   tier thorough
+// @   bounded at most 2 records (record loop unrolled) after a header without routeing filter and private extension; all header and record field values, all release-identifier combinations and all payload lengths unbounded
+// @   requires specHdrOK(f.Hdr) && int(f.Hdr.NumberOfCdrsInFile) == len(f.CdrList) && len(f.CdrList) <= 2
+// @   requires len(f.Hdr.CDRRouteingFilter) == 0 && len(f.Hdr.PrivateExtension) == 0
+// @   requires forall j int in 0..2 :: j < len(f.CdrList) ==> specRecOK(f.CdrList[j])
+// @   ensures specHdrEq(g.Hdr, f.Hdr)
+// @   ensures forall k int :: 0 <= k && k < len(f.Hdr.CDRRouteingFilter) ==> g.Hdr.CDRRouteingFilter[k] == f.Hdr.CDRRouteingFilter[k]
+// @   ensures forall k int :: 0 <= k && k < len(f.Hdr.PrivateExtension) ==> g.Hdr.PrivateExtension[k] == f.Hdr.PrivateExtension[k]
+// @   ensures len(g.CdrList) == len(f.CdrList)
+// @   ensures forall j int in 0..2 :: j < len(f.CdrList) ==> specRecHdrEq(g.CdrList[j].Hdr, f.CdrList[j].Hdr) && len(g.CdrList[j].CdrByte) == len(f.CdrList[j].CdrByte)
+// @   ensures forall j int in 0..2 :: j < len(f.CdrList) ==> forall k int :: 0 <= k && k < len(f.CdrList[j].CdrByte) ==> g.CdrList[j].CdrByte[k] == f.CdrList[j].CdrByte[k]
 func verifLemmaFileRoundTrip(f CDRFile, name string) (g CDRFile) {
 	f.Encoding(name)
 	g.Decoding(name)
@@ -170,12 +170,12 @@ func verifLemmaFileRoundTrip(f CDRFile, name string) (g CDRFile) {
 
 // Header round trip for every well-formed header (no records): all field values, all 64
 // release-identifier combinations, routeing filter and private extension of any length.
-//@ lemma verifLemmaHeaderRoundTrip [C14]
-//@   requires specHdrOK(f.Hdr) && f.Hdr.NumberOfCdrsInFile == 0 && len(f.CdrList) == 0
-//@   ensures specHdrEq(g.Hdr, f.Hdr)
-//@   ensures forall k int :: 0 <= k && k < len(f.Hdr.CDRRouteingFilter) ==> g.Hdr.CDRRouteingFilter[k] == f.Hdr.CDRRouteingFilter[k]
-//@   ensures forall k int :: 0 <= k && k < len(f.Hdr.PrivateExtension) ==> g.Hdr.PrivateExtension[k] == f.Hdr.PrivateExtension[k]
-//@   ensures len(g.CdrList) == 0
+// @ lemma verifLemmaHeaderRoundTrip [C14]
+// @   requires specHdrOK(f.Hdr) && f.Hdr.NumberOfCdrsInFile == 0 && len(f.CdrList) == 0
+// @   ensures specHdrEq(g.Hdr, f.Hdr)
+// @   ensures forall k int :: 0 <= k && k < len(f.Hdr.CDRRouteingFilter) ==> g.Hdr.CDRRouteingFilter[k] == f.Hdr.CDRRouteingFilter[k]
+// @   ensures forall k int :: 0 <= k && k < len(f.Hdr.PrivateExtension) ==> g.Hdr.PrivateExtension[k] == f.Hdr.PrivateExtension[k]
+// @   ensures len(g.CdrList) == 0
 func verifLemmaHeaderRoundTrip(f CDRFile, name string) (g CDRFile) {
 	f.Encoding(name)
 	g.Decoding(name)
